@@ -136,6 +136,13 @@ def _scan_trusted(text, origin):
     return out
 
 
+def _privatise(t):
+    """single-module file with private extracted items: spec/prelude text is made private as well"""
+    t = re.sub(r'\bpub\s+(open|closed)\s+spec\s+fn', 'spec fn', t)
+    t = re.sub(r'\bpub\s+(?!assume_specification)', '', t)
+    return t
+
+
 def generate(unit, repo, vacuity=False):
     g = Generated()
     chunks = []      # (text, meta)
@@ -143,17 +150,21 @@ def generate(unit, repo, vacuity=False):
     chunks.append(header)
     pre_text = ''
     for p in unit.prelude:
+        private = False
+        if isinstance(p, tuple):
+            p, private = p[0], True
         with open(os.path.join(CONTRACTS, p)) as f:
             t = f.read()
-        pre_text += '// ---- prelude: %s (trusted stubs: assumed contracts on dependencies)\n' % p + t + '\n'
         g.trusted += _scan_trusted(t, p)
+        if private:
+            t = _privatise(t)
+        pre_text += '// ---- prelude: %s (trusted stubs: assumed contracts on dependencies)\n' % p + t + '\n'
     spec_text = ''
     for p in unit.spec:
         with open(os.path.join(CONTRACTS, p)) as f:
             t = f.read()
         # single-module file with private extracted items: spec text is made private as well
-        t = re.sub(r'\bpub\s+', '', t)
-        t = re.sub(r'\b(open|closed)\s+spec\s+fn', 'spec fn', t)
+        t = _privatise(t)
         spec_text += '// ---- spec: %s\n' % p + t + '\n'
         for c in _scan_trusted(t, p):
             if 'uninterpreted spec fn' in c:
